@@ -57,6 +57,8 @@ func KVAlphabet(name string) []WOp {
 		return []WOp{kvPut("a", "1"), kvPut("a", "2"), kvDel("a"), kvPut("b", "1"), kvDel("b")}
 	case "tiny":
 		return []WOp{kvPut("a", "1"), kvPut("a", "2"), kvDel("a")}
+	case "twokeys": // two keys that can be written concurrently, one value each, a delete
+		return []WOp{kvPut("a", "1"), kvPut("b", "2"), kvDel("a")}
 	case "values": // value and key shapes: empty, binary, unicode keys
 		return []WOp{kvPut("a", "1"), kvPut("a", ""), kvPut("a", "\x00\xff"), kvDel("a"),
 			kvPut("ü/é", "2"), kvPut("ü/é", ""), kvDel("ü/é"), kvPut("b", "\x00\xff"), kvDel("b")}
